@@ -382,6 +382,27 @@ func vf05Record(msg []byte) []byte {
 
 // vf05Reapply fingerprints the capture and builds a new hello from the fingerprint with another server name of the
 // same length and another random stream. Returns "" or the failure.
+// vf05WithSessionIDLen rewrites the legacy_session_id of a captured ClientHello message to n bytes (TLS 1.2-era
+// browsers send none, resuming ones send 32, some stacks 16): the capture stays a valid hello of another total length.
+func vf05WithSessionIDLen(capture []byte, n int) []byte {
+	if len(capture) < 39 || n < 0 || n > 32 {
+		return capture
+	}
+	old := int(capture[38])
+	if len(capture) < 39+old {
+		return capture
+	}
+	out := append([]byte(nil), capture[:38]...)
+	out = append(out, byte(n))
+	for i := 0; i < n; i++ {
+		out = append(out, byte(0xa0+i))
+	}
+	out = append(out, capture[39+old:]...)
+	l := len(out) - 4
+	out[1], out[2], out[3] = byte(l>>16), byte(l>>8), byte(l)
+	return out
+}
+
 func vf05Reapply(capture []byte, blunt bool, stream uint64) (fail string, skipped string) {
 	return vf05ReapplyOpt(capture, blunt, false, stream)
 }
@@ -413,6 +434,17 @@ func vf05ReapplyOpt(capture []byte, blunt, alwaysAdd bool, stream uint64) (fail 
 		return fmt.Sprintf("hello from the fingerprint does not parse: %v", h.Violations), ""
 	}
 	if vfUnpaddedLen(h) != vfUnpaddedLen(hc) {
+		// utls always sends a 32-byte legacy session id: a capture with a shorter one comes back 32-n bytes longer before
+		// padding, and "reproduces the captured total length" then means the padding absorbs the difference - as long
+		// as at least 5 bytes (header + 1) are missing to the captured total
+		d := 32 - len(hc.SessionID)
+		if gap := len(capture) - vfUnpaddedLen(h); d > 0 && vfUnpaddedLen(h)-vfUnpaddedLen(hc) == d && gap >= 5 {
+			if len(raw) != len(capture) {
+				return fmt.Sprintf("capture of %d bytes with a %d-byte session id (U=%d, padding body %d) is reproduced with %d bytes (U=%d): the padding does not absorb the longer session id",
+					len(capture), len(hc.SessionID), vfUnpaddedLen(hc), len(pad.Body), len(raw), vfUnpaddedLen(h)), ""
+			}
+			return "", ""
+		}
 		// not a padding matter (something else changed size): outside this property
 		return "", fmt.Sprintf("unpadded-length-differs")
 	}
@@ -480,6 +512,12 @@ func TestVerifC05Fingerprinted(t *testing.T) {
 				st.Violation(t, "%s: %v", p.Name, err)
 			}
 			run(t, "parrot", raw, false, uint64(pi*1000+n)+777)
+			// the same capture as a client without (or with a shorter) legacy session id would have sent it
+			if n == 16 || n == 100 {
+				for _, sl := range []int{0, 16} {
+					run(t, fmt.Sprintf("parrot-sessionid-%d", sl), vf05WithSessionIDLen(raw, sl), false, uint64(pi*1000+n)+778)
+				}
+			}
 		}
 	}
 	// (d) drawn
@@ -498,6 +536,10 @@ func TestVerifC05Fingerprinted(t *testing.T) {
 		raw, err := vf05BuildCustom(vf05Layout(layout, n, pad), vfDNSNameOfLen(sl, 'q'), rapid.Uint64().Draw(rt, "s1"))
 		if err != nil {
 			st.Violation(rt, "capture build failed: %v", err)
+		}
+		if sl := rapid.SampledFrom([]int{32, 32, 0, 0, 16, 1, 31}).Draw(rt, "capture_session_id_len"); sl != 32 {
+			raw = vf05WithSessionIDLen(raw, sl)
+			what += fmt.Sprintf("-sessionid-%d", sl)
 		}
 		run(rt, what, raw, true, rapid.Uint64().Draw(rt, "s2"))
 	})
